@@ -11,9 +11,16 @@ import (
 func registerValidArgsFunction(cmd *cobra.Command) {
 	if cmd.ValidArgsFunction == nil {
 		cmd.ValidArgsFunction = func(cmd *cobra.Command, args []string, toComplete string) ([]string, cobra.ShellCompDirective) {
-			action := Action{}.Invoke(Context{Args: args, Value: toComplete}) // TODO just IvokedAction{} ok?
-			if storage.hasPositional(cmd, len(args)) {
-				action = storage.getPositional(cmd, len(args)).Invoke(Context{Args: args, Value: toComplete})
+			// cobra parses the line once with an extra `--` appended and pflag keeps the position it
+			// recorded: only a dash that is followed by an argument was typed by the user
+			context := Context{Args: args, Value: toComplete}
+			isDash := cmd.ArgsLenAtDash() >= 0 && cmd.ArgsLenAtDash() < len(args)
+			if isDash {
+				context.Args = args[cmd.ArgsLenAtDash():]
+			}
+			action := Action{}.Invoke(context) // TODO just IvokedAction{} ok?
+			if storage.hasPositionalAt(cmd, len(context.Args), isDash) {
+				action = storage.getPositionalAt(cmd, len(context.Args), isDash).Invoke(context)
 			}
 			return cobraValuesFor(action), cobraDirectiveFor(action)
 		}
